@@ -526,3 +526,43 @@ pub fn join_decorated(toks: &[String], rng: &mut Rng) -> String {
     }
     s
 }
+
+fn is_wordy(c: char) -> bool {
+    c == '_' || c.is_ascii_alphanumeric()
+}
+
+/// Must two adjacent tokens be separated so that they lex as themselves? (DESIGN.md Appendix C)
+pub fn needs_separator(a: &str, b: &str) -> bool {
+    let (la, fb) = match (a.chars().last(), b.chars().next()) {
+        (Some(x), Some(y)) => (x, y),
+        _ => return false,
+    };
+    if is_wordy(la) && is_wordy(fb) {
+        return true;
+    }
+    // "-" followed by a digit would become a negative literal; a word followed by a negative
+    // literal is fine to write tight only if a binary minus was meant, which it is not
+    if a == "-" && fb.is_ascii_digit() {
+        return true;
+    }
+    if is_wordy(la) && fb == '-' && b.len() > 1 && b[1..].starts_with(|c: char| c.is_ascii_digit()) {
+        // `a` `-1` must not read as `a - 1`: it would not even be the same token sequence
+        return true;
+    }
+    matches!(
+        (la, fb),
+        ('<', '-') | ('<', '=') | ('>', '=') | ('=', '=') | ('!', '=') | ('-', '>') | ('/', '/') | ('/', '*') | ('*', '/') | ('&', '&') | ('|', '|') | ('<', '<') | ('>', '>') | ('-', '-')
+    )
+}
+
+/// Source text with no layout at all except where two tokens would otherwise merge.
+pub fn join_tight(toks: &[String]) -> String {
+    let mut s = String::new();
+    for (i, t) in toks.iter().enumerate() {
+        if i > 0 && needs_separator(&toks[i - 1], t) {
+            s.push(' ');
+        }
+        s.push_str(t);
+    }
+    s
+}
